@@ -80,7 +80,41 @@ func runC18(c *Ctx) {
 
 	// R18.2 InsecureSkipVerify
 	isv := fieldStores(f, tlsConfigT, "InsecureSkipVerify")
-	serverNameEmpty := factEqString(optField("ServerName"), "", true)
+	serverNameEmptyOpt := factEqString(optField("ServerName"), "", true)
+	// (the test may be made on the configuration's own ServerName once the option was copied into it: empty there means
+	// empty in the options, provided the field only ever receives the option and the copy — or the option's emptiness —
+	// precedes the test on every path)
+	nameStores := fieldStores(f, tlsConfigT, "ServerName")
+	nameOnlyFromOption := len(nameStores) > 0
+	for _, st := range nameStores {
+		if !optField("ServerName")(st.Val) {
+			nameOnlyFromOption = false
+		}
+	}
+	serverNameEmpty := func(cond ssa.Value, branch bool) bool {
+		if serverNameEmptyOpt(cond, branch) {
+			return true
+		}
+		if !nameOnlyFromOption {
+			return false
+		}
+		isCfgName := func(v ssa.Value) bool {
+			_, ok := fieldLoad(v, tlsConfigT, "ServerName")
+			return ok
+		}
+		if !factEqString(isCfgName, "", true)(cond, branch) {
+			return false
+		}
+		ci, isIn := cond.(ssa.Instruction)
+		if !isIn || ci.Block() == nil {
+			return false
+		}
+		var sts []ssa.Instruction
+		for _, st := range nameStores {
+			sts = append(sts, st)
+		}
+		return !pathExists(f, nil, ci, serverNameEmptyOpt, isOneOf(sts...))
+	}
 	optRequested := factBool(optField("InsecureSkipVerify"), true)
 	// isvSafe evaluates a stored boolean symbolically: (v true => opts.InsecureSkipVerify is true, v true => ServerName == "")
 	var isvSafe func(v ssa.Value, depth int) (bool, bool)
